@@ -716,4 +716,268 @@ theorem parseJSONLiteral_number (t : Bytes) (h : Json.isValidNumber t = true) :
     exact decode_number _ h
   · cases h'
 
+/-- `r` does not continue a number: it is empty or starts with a byte outside the number alphabet -/
+def Stop (r : Bytes) : Prop := ∀ b t, r = b :: t → ¬ NumChar b
+
+theorem Stop.nil : Stop [] := by intro b t h; cases h
+
+theorem Stop.cons {b : Nat} {t : Bytes} (h : ¬ NumChar b) : Stop (b :: t) := by
+  intro b' t' e; cases e; exact h
+
+theorem not_digit_of_stop {b : Nat} {t : Bytes} (h : Stop (b :: t)) : Dec.isDigit b = false := by
+  have := h b t rfl
+  unfold NumChar at this
+  simp [Dec.isDigit]; omega
+
+theorem takeDigits_stop (r : Bytes) (h : Stop r) : Json.takeDigits r = ([], r) := by
+  cases r with
+  | nil => rfl
+  | cons b t => rw [Json.takeDigits]; simp [not_digit_of_stop h]
+
+theorem takeDigits_ext (r : Bytes) (h : Stop r) : ∀ s : Bytes,
+    Json.takeDigits (s ++ r) = ((Json.takeDigits s).1, (Json.takeDigits s).2 ++ r)
+  | [] => by simp [takeDigits_stop r h, Json.takeDigits]
+  | b :: t => by
+    rw [List.cons_append, Json.takeDigits, Json.takeDigits]
+    by_cases hb : Dec.isDigit b = true
+    · simp [hb, takeDigits_ext r h t]
+    · simp [hb]
+
+def extR (r : Bytes) (p : Bytes × Bytes) : Bytes × Bytes := (p.1, p.2 ++ r)
+
+theorem signPart_cons (b : Nat) (t : Bytes) :
+    signPart (b :: t) = if b = 0x2D then ([0x2D], t) else ([], b :: t) := by
+  unfold signPart
+  split
+  · rename_i heq; cases heq; simp
+  · rename_i hne
+    by_cases hb : b = 0x2D
+    · subst hb; exact absurd rfl (hne t)
+    · simp [hb]
+
+theorem signPart_ext (r : Bytes) (h : Stop r) (s : Bytes) : signPart (s ++ r) = extR r (signPart s) := by
+  cases s with
+  | nil =>
+    cases r with
+    | nil => rfl
+    | cons b t =>
+      have : b ≠ 0x2D := by intro e; exact h b t rfl (by simp [NumChar, e])
+      simp [this, extR, signPart]
+  | cons b t =>
+    rw [List.cons_append, signPart_cons, signPart_cons]
+    by_cases hb : b = 0x2D <;> simp [hb, extR]
+
+theorem intPart_cons (b : Nat) (t : Bytes) :
+    intPart (b :: t) = if b = 0x30 then some ([0x30], t)
+      else if 0x31 ≤ b ∧ b ≤ 0x39 then some (Json.takeDigits (b :: t)) else none := by
+  unfold intPart
+  split
+  · rename_i heq; cases heq; simp
+  · rename_i b' t' hne heq
+    cases heq
+    have hb : b ≠ 0x30 := by intro e; subst e; exact hne rfl
+    simp [hb]
+  · rename_i heq; cases heq
+
+theorem intPart_ext (r : Bytes) (h : Stop r) (s : Bytes) : intPart (s ++ r) = (intPart s).map (extR r) := by
+  cases s with
+  | nil =>
+    cases r with
+    | nil => rfl
+    | cons b t =>
+      have hb := h b t rfl
+      unfold NumChar at hb
+      have h0 : b ≠ 0x30 := by omega
+      have h1 : ¬ (0x31 ≤ b ∧ b ≤ 0x39) := by omega
+      simp [h1, intPart]
+  | cons b t =>
+    rw [List.cons_append, intPart_cons, intPart_cons]
+    by_cases hb : b = 0x30
+    · simp [hb, extR]
+    · by_cases hb2 : 0x31 ≤ b ∧ b ≤ 0x39
+      · simp only [hb, hb2, if_false, if_true, and_self, Option.map]
+        rw [← List.cons_append, takeDigits_ext r h]; rfl
+      · simp [hb, hb2]
+
+theorem fracPart_cons (b : Nat) (t : Bytes) :
+    fracPart (b :: t) = if b = 0x2E then
+        (if (Json.takeDigits t).1.isEmpty then none else some (0x2E :: (Json.takeDigits t).1, (Json.takeDigits t).2))
+      else some ([], b :: t) := by
+  unfold fracPart
+  split
+  · rename_i heq; cases heq; simp
+  · rename_i hne
+    have hb : b ≠ 0x2E := by intro e; subst e; exact absurd rfl (hne t)
+    simp [hb]
+
+theorem fracPart_ext (r : Bytes) (h : Stop r) (s : Bytes) : fracPart (s ++ r) = (fracPart s).map (extR r) := by
+  cases s with
+  | nil =>
+    cases r with
+    | nil => rfl
+    | cons b t =>
+      have hb := h b t rfl
+      unfold NumChar at hb
+      have h0 : b ≠ 0x2E := by omega
+      simp [h0, fracPart, extR]
+  | cons b t =>
+    rw [List.cons_append, fracPart_cons, fracPart_cons]
+    by_cases hb : b = 0x2E
+    · simp only [hb, if_true, takeDigits_ext r h t]
+      by_cases he : (Json.takeDigits t).1.isEmpty = true <;> simp [he, extR]
+    · simp [hb, extR]
+
+/-- optional sign of the exponent -/
+def expSign (t : Bytes) : Bytes × Bytes := match t with
+  | 0x2B :: u => ([0x2B], u)
+  | 0x2D :: u => ([0x2D], u)
+  | _ => ([], t)
+
+theorem expSign_cons (b : Nat) (t : Bytes) :
+    expSign (b :: t) = if b = 0x2B then ([0x2B], t) else if b = 0x2D then ([0x2D], t) else ([], b :: t) := by
+  unfold expSign
+  split
+  · rename_i heq; cases heq; simp
+  · rename_i heq; cases heq; simp
+  · rename_i hne1 hne2
+    have hb1 : b ≠ 0x2B := by intro e; subst e; exact absurd rfl (hne1 t)
+    have hb2 : b ≠ 0x2D := by intro e; subst e; exact absurd rfl (hne2 t)
+    simp [hb1, hb2]
+
+theorem expSign_ext (r : Bytes) (h : Stop r) (s : Bytes) : expSign (s ++ r) = extR r (expSign s) := by
+  cases s with
+  | nil =>
+    cases r with
+    | nil => rfl
+    | cons b t =>
+      have hb := h b t rfl
+      unfold NumChar at hb
+      have h0 : b ≠ 0x2B := by omega
+      have h1 : b ≠ 0x2D := by omega
+      simp [h0, h1, extR, expSign]
+  | cons b t =>
+    rw [List.cons_append, expSign_cons, expSign_cons]
+    by_cases hb : b = 0x2B
+    · simp [hb, extR]
+    · by_cases hb2 : b = 0x2D <;> simp [hb, hb2, extR]
+
+theorem expPart_cons (e : Nat) (t : Bytes) :
+    expPart (e :: t) = if e = 0x65 ∨ e = 0x45 then
+        (if (Json.takeDigits (expSign t).2).1.isEmpty then none
+         else some (e :: (expSign t).1 ++ (Json.takeDigits (expSign t).2).1, (Json.takeDigits (expSign t).2).2))
+      else some ([], e :: t) := by
+  unfold expPart expSign
+  rfl
+
+theorem expPart_ext (r : Bytes) (h : Stop r) (s : Bytes) : expPart (s ++ r) = (expPart s).map (extR r) := by
+  cases s with
+  | nil =>
+    cases r with
+    | nil => rfl
+    | cons b t =>
+      have hb := h b t rfl
+      unfold NumChar at hb
+      have h0 : ¬ (b = 0x65 ∨ b = 0x45) := by omega
+      simp [h0, expPart, extR]
+  | cons b t =>
+    rw [List.cons_append, expPart_cons, expPart_cons]
+    by_cases hb : b = 0x65 ∨ b = 0x45
+    · simp only [hb, if_true, expSign_ext r h t, extR, takeDigits_ext r h]
+      by_cases he : (Json.takeDigits (expSign t).2).1.isEmpty = true <;> simp [he, extR]
+    · simp [hb, extR]
+
+/-- a number token followed by something that cannot continue a number is read the same way -/
+theorem parseNumberTok_ext (r : Bytes) (h : Stop r) (s : Bytes) :
+    Json.parseNumberTok (s ++ r) = (Json.parseNumberTok s).map (extR r) := by
+  rw [parseNumberTok_stages, parseNumberTok_stages, signPart_ext r h]
+  simp only [extR]
+  rw [intPart_ext r h]
+  cases intPart (signPart s).2 with
+  | none => rfl
+  | some ip =>
+    obtain ⟨ip, s2⟩ := ip
+    simp only [Option.map, extR]
+    rw [fracPart_ext r h]
+    cases fracPart s2 with
+    | none => rfl
+    | some fp =>
+      obtain ⟨fp, s3⟩ := fp
+      simp only [Option.map, extR]
+      rw [expPart_ext r h]
+      cases expPart s3 with
+      | none => rfl
+      | some ep =>
+        obtain ⟨ep, s4⟩ := ep
+        rfl
+
+theorem parseNumberTok_valid_ext (t r : Bytes) (ht : Json.isValidNumber t = true) (h : Stop r) :
+    Json.parseNumberTok (t ++ r) = some (t, r) := by
+  unfold Json.isValidNumber at ht
+  split at ht
+  · rename_i n hn
+    obtain ⟨h1, _⟩ := parseNumberTok_spec _ _ _ hn
+    have : t = n := by simpa using h1
+    subst this
+    rw [parseNumberTok_ext r h, hn]; rfl
+  · cases ht
+
+/-! ### JSON leaves followed by more text; arrays -/
+
+open Json in
+theorem parseValue_null (f d : Nat) (rest : Bytes) :
+    parseValue (f + 1) d (0x6E :: 0x75 :: 0x6C :: 0x6C :: rest) = some (.null, rest) := by
+  simp [parseValue, skipWs, isWs]
+
+open Json in
+theorem parseValue_true (f d : Nat) (rest : Bytes) :
+    parseValue (f + 1) d (0x74 :: 0x72 :: 0x75 :: 0x65 :: rest) = some (.bool true, rest) := by
+  simp [parseValue, skipWs, isWs]
+
+open Json in
+theorem parseValue_false (f d : Nat) (rest : Bytes) :
+    parseValue (f + 1) d (0x66 :: 0x61 :: 0x6C :: 0x73 :: 0x65 :: rest) = some (.bool false, rest) := by
+  simp [parseValue, skipWs, isWs]
+
+theorem parseValue_number_ext (f d : Nat) (t r : Bytes) (ht : Json.isValidNumber t = true) (h : Stop r) :
+    Json.parseValue (f + 1) d (t ++ r) = some (.num (.jnum t), r) := by
+  have hn := parseNumberTok_valid_ext t r ht h
+  have ht' := ht
+  unfold Json.isValidNumber at ht'
+  split at ht'
+  · rename_i n hn0
+    obtain ⟨h1, _, b, t', rfl, hb⟩ := parseNumberTok_spec _ _ _ hn0
+    rw [List.cons_append] at hn ⊢
+    rw [parseValue_number f d b _ hb, hn]; rfl
+  · cases ht'
+
+theorem skipWs_cons (b : Nat) (t : Bytes) (h : Json.isWs b = false) : Json.skipWs (b :: t) = b :: t := by
+  simp [Json.skipWs, h]
+
+open Json in
+theorem parseElems_last (f d : Nat) (s : Bytes) (accv : List Val) (v : Val) (r : Bytes)
+    (h : parseValue f d s = some (v, 0x5D :: r)) :
+    parseElems (f + 1) d s accv = some (accv ++ [v], r) := by
+  rw [parseElems, h]
+  simp [skipWs, isWs]
+
+open Json in
+theorem parseElems_more (f d : Nat) (s : Bytes) (accv : List Val) (v : Val) (r : Bytes)
+    (h : parseValue f d s = some (v, 0x2C :: r)) :
+    parseElems (f + 1) d s accv = parseElems f d r (accv ++ [v]) := by
+  rw [parseElems, h]
+  simp [skipWs, isWs]
+
+open Json in
+theorem parseValue_arr (f d b : Nat) (t : Bytes) (hd : d + 1 ≤ maxDepth) (hw : isWs b = false) (hb : b ≠ 0x5D) :
+    parseValue (f + 1) d (0x5B :: b :: t) =
+      (parseElems f (d + 1) (b :: t) []).map (fun p => (Val.arr .plain p.1, p.2)) := by
+  have h1 : skipWs (0x5B :: b :: t) = 0x5B :: b :: t := skipWs_cons _ _ (by decide)
+  have h2 : skipWs (b :: t) = b :: t := skipWs_cons _ _ hw
+  have h3 : ¬ (d + 1 > maxDepth) := by omega
+  rw [parseValue, h1]
+  simp only [h3, if_false, h2]
+  split
+  · rename_i heq; simp at heq; exact absurd heq.1 hb
+  · rfl
+
 end Jmes.Literals
